@@ -17,6 +17,7 @@
 use std::fmt::{Debug, Display};
 
 use crate::dataplane_path::standard::{
+    layout::StdPathMetaLayout,
     mac::{
         ForwardingKey,
         algo::{calculate_hop_mac, mac_beta_step},
@@ -317,6 +318,12 @@ impl StandardPathView {
             }
             // SEGMENT CHANGE: advance to the next segment
             (false, true) => {
+                // The advanced hop field index must be representable in the CurrHF field,
+                // otherwise the pointer would wrap around.
+                if curr_hop_idx + 1 > StdPathMetaLayout::CURR_HOP_FIELD_RNG.max_uint() {
+                    return Err(AdvanceError::HopOutOfBounds(curr_hop_idx as u8 + 1));
+                }
+
                 let next_hop_field = self
                     .hop_field(curr_hop_idx + 1)
                     .ok_or(AdvanceError::HopOutOfBounds(curr_hop_idx as u8 + 1))?;
@@ -488,6 +495,12 @@ impl StandardPathView {
 
         if is_final_hop {
             // We are at the end of the path, we can't advance further
+            return Err(AdvanceError::HopOutOfBounds(curr_hop_idx as u8 + 1));
+        }
+
+        // The advanced hop field index must be representable in the CurrHF field, otherwise the
+        // pointer would wrap around.
+        if curr_hop_idx + 1 > StdPathMetaLayout::CURR_HOP_FIELD_RNG.max_uint() {
             return Err(AdvanceError::HopOutOfBounds(curr_hop_idx as u8 + 1));
         }
 
